@@ -15,6 +15,23 @@ type SV struct {
 	T types.Type // nil for ghost values
 }
 
+// abstract (ghost) maps given as a function of the index instead of an array term carry the
+// function in Term.Fn (sort kind KFn); see abstractField.
+func (v SV) at(idx *Term) *Term {
+	if v.V.Fn != nil {
+		return v.V.Fn(idx)
+	}
+	return Select(v.V, idx, v.V.Sort.Elem)
+}
+
+func (v SV) isMapLike() bool { return v.V != nil && (v.V.Fn != nil || v.V.Sort.Kind == KArray) }
+
+func (v SV) keySort() *Sort { return v.V.Sort.Key }
+
+func fnTerm(key, elem *Sort, fn func(idx *Term) *Term) *Term {
+	return &Term{S: "<abstract-map>", Sort: &Sort{Name: "<abstract-map>", Kind: KFn, Key: key, Elem: elem}, Fn: fn}
+}
+
 type specErr struct{ msg string }
 
 func (e specErr) Error() string { return e.msg }
@@ -230,6 +247,19 @@ func (env *Env) eval(e Expr) SV {
 			return SV{Not(v.V), v.T}
 		case "-":
 			return SV{T(sortInt, "(- "+v.V.S+")"), v.T}
+		case "*":
+			pt, isPtr := derefType(v.T)
+			if !isPtr {
+				specFail("dereference of a non-pointer")
+			}
+			if arr, ok := types.Unalias(pt).Underlying().(*types.Array); ok {
+				es := vc.eng.st.SortOf(arr.Elem())
+				_, h := vc.arrHeap(env.st, es)
+				return SV{Select(h, v.V, vc.eng.st.ArrayOf(sortInt, es)), pt}
+			}
+			ps := vc.eng.st.SortOf(pt)
+			_, h := vc.objHeap(env.st, ps)
+			return SV{Select(h, v.V, ps), pt}
 		}
 	case *EBinary:
 		return env.evalBinary(x)
@@ -404,6 +434,9 @@ func isNilSV(v SV) bool {
 }
 
 func (env *Env) equal(l, r SV) *Term {
+	if l.V == nil || r.V == nil {
+		specFail("comparison of a value that has no term")
+	}
 	if isNilSV(l) {
 		l, r = r, l
 	}
@@ -417,6 +450,14 @@ func (env *Env) equal(l, r SV) *Term {
 			return Eq(l.V, IntLit(0))
 		}
 		specFail("comparison of %s with nil", l.V.Sort.Name)
+	}
+	if l.V.Fn != nil || r.V.Fn != nil {
+		if !l.isMapLike() || !r.isMapLike() {
+			specFail("comparison of an abstract map with a non-map")
+		}
+		*env.nq++
+		q := T(l.keySort(), fmt.Sprintf("qx%d", *env.nq))
+		return T(sortBool, fmt.Sprintf("(forall ((%s %s)) (= %s %s))", q.S, l.keySort().Name, l.at(q).S, r.at(q).S))
 	}
 	if l.V.Sort != r.V.Sort && l.V.Sort.Name != r.V.Sort.Name {
 		specFail("comparison of different sorts %s and %s", l.V.Sort.Name, r.V.Sort.Name)
@@ -481,6 +522,9 @@ func (env *Env) evalSel(x *ESel) SV {
 	}
 	// ghost field keyed by object
 	if g, ok := vc.eng.db.Ghosts[x.Name]; ok && g.Field {
+		if sv, ok := env.abstractField(base, g); ok {
+			return sv
+		}
 		ref := env.refOf(base)
 		_, gs := env.inPkg(g.Pkg).resolveType(g.Type)
 		h := vc.ghostFieldHeap(env.st, g, gs)
@@ -488,6 +532,81 @@ func (env *Env) evalSel(x *ESel) SV {
 	}
 	specFail("no field or ghost field %q on %s", x.Name, typeStr(base.T))
 	return SV{}
+}
+
+// abstractField resolves a ghost field on a value whose static type has an abstraction block.
+func (env *Env) abstractField(base SV, g *GhostDecl) (SV, bool) {
+	vc := env.vc
+	if base.T == nil {
+		return SV{}, false
+	}
+	t, _ := derefType(base.T)
+	n, ok := types.Unalias(t).(*types.Named)
+	if !ok || n.Obj().Pkg() == nil {
+		return SV{}, false
+	}
+	defs, ok := vc.eng.db.Abstractions[n.Obj().Pkg().Path()+"."+n.Obj().Name()]
+	if !ok {
+		return SV{}, false
+	}
+	def, ok := defs[g.Name]
+	if !ok {
+		specFail("type %s has an abstraction block but no definition for ghost field %q", n.Obj().Name(), g.Name)
+	}
+	_, gs := env.inPkg(g.Pkg).resolveType(g.Type)
+	inner := *env.inPkg(n.Obj().Pkg().Path())
+	inner.vars = map[string]SV{"this": base}
+	for k, v := range env.vars {
+		if _, shadow := inner.vars[k]; !shadow {
+			inner.vars[k] = v
+		}
+	}
+	inner.this = &base
+	if def.Param == "" {
+		return inner.eval(def.Body), true
+	}
+	if gs.Kind != KArray {
+		specFail("abstraction of %s is indexed but the ghost field is not a map", g.Name)
+	}
+	captured := inner
+	return SV{V: fnTerm(gs.Key, gs.Elem, func(idx *Term) *Term {
+		e2 := captured
+		e2.vars = make(map[string]SV, len(captured.vars)+1)
+		for k, v := range captured.vars {
+			e2.vars[k] = v
+		}
+		var kt types.Type
+		if kts := ghostKeyType(g.Type); kts != "" {
+			kt, _ = captured.inPkg(g.Pkg).resolveType(kts)
+		}
+		e2.vars[def.Param] = SV{V: idx, T: kt}
+		r := e2.eval(def.Body)
+		if r.V == nil {
+			specFail("abstraction of %s does not yield a term", g.Name)
+		}
+		return r.V
+	})}, true
+}
+
+// ghostKeyType extracts K from "map[K]V" / "set[K]".
+func ghostKeyType(t string) string {
+	t = strings.TrimSpace(t)
+	for _, pre := range []string{"map[", "set["} {
+		if strings.HasPrefix(t, pre) {
+			depth := 0
+			for i := len(pre) - 1; i < len(t); i++ {
+				if t[i] == '[' {
+					depth++
+				} else if t[i] == ']' {
+					depth--
+					if depth == 0 {
+						return t[len(pre):i]
+					}
+				}
+			}
+		}
+	}
+	return ""
 }
 
 func typeStr(t types.Type) string {
@@ -558,11 +677,14 @@ func (env *Env) evalIndex(x *EIndex) SV {
 	vc := env.vc
 	base := env.eval(x.X)
 	idx := env.eval(x.I)
+	if base.V.Fn != nil {
+		return SV{V: base.V.Fn(idx.V)}
+	}
 	if base.T != nil {
 		switch u := types.Unalias(base.T).Underlying().(type) {
 		case *types.Map:
 			ks, es := vc.eng.st.SortOf(u.Key()), vc.eng.st.SortOf(u.Elem())
-			mh := vc.mapHeapsOf(env.st, ks, es)
+			mh := vc.mapHeapsOf(env.st, u)
 			present := And(Not(Eq(base.V, IntLit(0))), Select(Select(mh.p, base.V, vc.eng.st.ArrayOf(ks, sortBool)), idx.V, sortBool))
 			val := Select(Select(mh.v, base.V, vc.eng.st.ArrayOf(ks, es)), idx.V, es)
 			return SV{Ite(present, val, vc.eng.st.Zero(es)), u.Elem()}
@@ -576,7 +698,7 @@ func (env *Env) evalIndex(x *EIndex) SV {
 		}
 	}
 	if base.V.Sort.Kind == KArray {
-		return SV{Select(base.V, idx.V, base.V.Sort.Elem), nil}
+		return SV{V: Select(base.V, idx.V, base.V.Sort.Elem)}
 	}
 	specFail("cannot index %s", base.V.Sort.Name)
 	return SV{}
@@ -609,7 +731,7 @@ func (env *Env) evalCall(x *ECall) SV {
 			return SV{App(sortInt, "strlen", v.V), ti}
 		case KInt:
 			if m, ok := types.Unalias(v.T).Underlying().(*types.Map); ok {
-				mh := vc.mapHeapsOf(env.st, vc.eng.st.SortOf(m.Key()), vc.eng.st.SortOf(m.Elem()))
+				mh := vc.mapHeapsOf(env.st, m)
 				return SV{Ite(Eq(v.V, IntLit(0)), IntLit(0), Select(mh.n, v.V, sortInt)), ti}
 			}
 		}
@@ -619,12 +741,15 @@ func (env *Env) evalCall(x *ECall) SV {
 	case "has":
 		m, k := arg(0), arg(1)
 		if mt, ok := types.Unalias(m.T).Underlying().(*types.Map); m.T != nil && ok {
-			ks, es := vc.eng.st.SortOf(mt.Key()), vc.eng.st.SortOf(mt.Elem())
-			mh := vc.mapHeapsOf(env.st, ks, es)
+			ks, _ := vc.eng.st.SortOf(mt.Key()), vc.eng.st.SortOf(mt.Elem())
+			mh := vc.mapHeapsOf(env.st, mt)
 			return SV{And(Not(Eq(m.V, IntLit(0))), Select(Select(mh.p, m.V, vc.eng.st.ArrayOf(ks, sortBool)), k.V, sortBool)), tb}
 		}
+		if m.V.Fn != nil {
+			return SV{V: m.V.Fn(k.V), T: tb}
+		}
 		if m.V.Sort.Kind == KArray && m.V.Sort.Elem.Kind == KBool {
-			return SV{Select(m.V, k.V, sortBool), tb}
+			return SV{V: Select(m.V, k.V, sortBool), T: tb}
 		}
 		specFail("has: first argument is not a map")
 	case "bigval", "bigbuf":
@@ -676,10 +801,14 @@ func (env *Env) evalCall(x *ECall) SV {
 		return SV{env.refOf(arg(0)), ti}
 	case "upd":
 		a, k, v := arg(0), arg(1), arg(2)
+		if a.V.Fn != nil {
+			inner := a.V
+			return SV{V: fnTerm(inner.Sort.Key, inner.Sort.Elem, func(idx *Term) *Term { return Ite(Eq(idx, k.V), v.V, inner.Fn(idx)) })}
+		}
 		if a.V.Sort.Kind != KArray {
 			specFail("upd: first argument is not a ghost map")
 		}
-		return SV{Store(a.V, k.V, v.V), a.T}
+		return SV{V: Store(a.V, k.V, v.V), T: a.T}
 	case "concat":
 		return SV{vc.strCat(env.st, arg(0).V, arg(1).V), types.Typ[types.String]}
 	case "spawned":
